@@ -9,6 +9,15 @@
 #include <pthread.h>
 #include <unistd.h>
 
+#ifdef JSIM_THR
+#include "simtsan.h"
+#include <malloc.h>
+#define THR_YIELD() simthr_yield(1)
+#define THR_ALLOC(p, n) simthr_on_alloc((p), (n))
+#else
+#define THR_YIELD() ((void)0)
+#define THR_ALLOC(p, n) ((void)0)
+#endif
 thread_local int t_lib_active = 0;
 AllocSim g_alloc;
 FdSim g_fd;
@@ -252,21 +261,33 @@ extern "C" {
 void *__wrap_malloc(size_t n)
 {
 	if (!t_lib_active)
-		return __real_malloc(n);
+	{
+		void *q = __real_malloc(n);
+		THR_ALLOC(q, n); // json-c called by the harness outside a library scope (dumps): still fresh memory for the race detector
+		return q;
+	}
 	int sv = t_lib_active;
 	t_lib_active = 0;
+	THR_YIELD();
 	void *p = nullptr;
 	if (alloc_decide(n))
 		errno = ENOMEM;
 	else if ((p = __real_malloc(n)))
+	{
 		live_add(p, n);
+		THR_ALLOC(p, n);
+	}
 	t_lib_active = sv;
 	return p;
 }
 void *__wrap_calloc(size_t a, size_t b)
 {
 	if (!t_lib_active)
-		return __real_calloc(a, b);
+	{
+		void *q = __real_calloc(a, b);
+		THR_ALLOC(q, a * b);
+		return q;
+	}
 	int sv = t_lib_active;
 	t_lib_active = 0;
 	void *p = nullptr;
@@ -275,7 +296,10 @@ void *__wrap_calloc(size_t a, size_t b)
 	if (alloc_decide(ovf ? (size_t)-1 : tot))
 		errno = ENOMEM;
 	else if ((p = __real_calloc(a, b)))
+	{
 		live_add(p, tot);
+		THR_ALLOC(p, tot);
+	}
 	t_lib_active = sv;
 	return p;
 }
@@ -291,6 +315,7 @@ void *__wrap_realloc(void *old, size_t n)
 			live_del(old);
 			live_add(q, n);
 		}
+		THR_ALLOC(q, n);
 		return q;
 	}
 	int sv = t_lib_active;
@@ -301,6 +326,21 @@ void *__wrap_realloc(void *old, size_t n)
 	else
 	{
 		bool was_live = old && g_alloc.live.count(old);
+#ifdef JSIM_THR
+		if (simthr_active() && old)
+		{
+			// never hand a block back to libc while threads are being simulated: an address must not change owner within a run
+			p = __real_malloc(n);
+			if (p)
+			{
+				size_t oldn = malloc_usable_size(old);
+				memcpy(p, old, oldn < n ? oldn : n);
+				if (!simthr_on_free(old, oldn))
+					__real_free(old);
+			}
+		}
+		else
+#endif
 		p = __real_realloc(old, n);
 		if (p)
 		{
@@ -308,8 +348,7 @@ void *__wrap_realloc(void *old, size_t n)
 				live_del(old);
 			if (was_live || !old)
 				live_add(p, n);
-			if (old)
-				g_alloc.total_frees += 0;
+			THR_ALLOC(p, n);
 		}
 	}
 	t_lib_active = sv;
@@ -327,6 +366,14 @@ void __wrap_free(void *p)
 		if (g_alloc.free_hook)
 			g_alloc.free_hook(p);
 		live_del(p);
+#ifdef JSIM_THR
+		THR_YIELD();
+		if (simthr_on_free(p, malloc_usable_size(p)))
+		{
+			t_lib_active = sv;
+			return; // quarantined until the end of the simulated run: later accesses are use-after-free reports
+		}
+#endif
 		t_lib_active = sv;
 	}
 	else if (!g_alloc.live.empty())
